@@ -1,5 +1,5 @@
 import ast
-from typing import Dict, List, Optional, Tuple, Union, cast
+from typing import Dict, List, Optional, Set, Tuple, Union, cast
 
 from graphql import (
     GraphQLEnumType,
@@ -65,6 +65,7 @@ class ArgumentsGenerator:
         required_args: List[ast.arg] = [generate_arg("self")]
         optional_args: List[ast.arg] = []
         dict_ = generate_dict()
+        used_names = self._get_reserved_argument_names()
         for variable_definition in variable_definitions:
             org_name = variable_definition.variable.name.value
             name = process_name(
@@ -73,8 +74,9 @@ class ArgumentsGenerator:
                 plugin_manager=self.plugin_manager,
                 node=variable_definition,
             )
-            if name in ("self", KWARGS_NAMES):
+            while name in used_names:
                 name += "_"
+            used_names.add(name)
             annotation, used_custom_scalar = self._parse_type_node(
                 variable_definition.type
             )
@@ -109,6 +111,18 @@ class ArgumentsGenerator:
                 dict_, variable_definitions=variable_definitions
             )
         return arguments, dict_
+
+    def _get_reserved_argument_names(self) -> Set[str]:
+        """Names an argument cannot take without breaking the generated method.
+
+        `self` and `kwargs` are parameters of every method, `gql`, `UNSET` and
+        the serialize functions of custom scalars are referenced in its body.
+        """
+        reserved = {"self", KWARGS_NAMES, "gql", UNSET_NAME}
+        for scalar_data in self.custom_scalars.values():
+            if scalar_data.serialize_name:
+                reserved.add(scalar_data.serialize_name)
+        return reserved
 
     def get_used_enums(self) -> List[str]:
         return self._used_enums
